@@ -7,7 +7,11 @@ import wpilib
 
 class Injected(Exception):
     def __init__(self, site, n):
-        super().__init__(f"injected fault at {site} (call {n})")
+        # like real-world errors the exception carries data; every other one has an unhashable item in args
+        if n % 2:
+            super().__init__(f"injected fault at {site} (call {n})")
+        else:
+            super().__init__(f"injected fault at {site} (call {n})", [site, n], {"reading": 4.7})
         self.site = site
         self.n = n
 
